@@ -255,6 +255,10 @@ pub fn write(book: &LBook, fmt: Fmt, rng: &mut Rng) -> Vec<u8> {
                     _ => xlsbw::SheetKind::Work,
                 };
                 sh.no_rel = s.no_rel;
+                // rows out of ascending order in the part (each keeps its row header): what a read must not depend on
+                if rng.chance(1, 5) {
+                    sh.row_order = Some(rng.next());
+                }
                 for ((r, c), v) in &s.cells {
                     let bv = match v {
                         V::Num(f) => xlsbw::BVal::real(*f),
